@@ -18,6 +18,8 @@ def run(run, model):
     run.do(msg.text_and_assembly, model)
     run.do(msg.decorator_regex, model)
     run.do(effects.handlers_rule, model, "C07.no-swallow")
+    from . import fwd
+    run.do(fwd.forwarding, model, "C07.forwarded", ("condition", "description", "location", "error"))
     run.minimum("C07.lazy", 14)
     run.minimum("C07.supported-forms", 22)
     run.minimum("C07.assembly", 24)
